@@ -559,6 +559,7 @@ type LoopSpec struct {
 	Unrolled   bool
 	Abstract   bool   // the loop body is not verified (cut and havocked only); reported as an assumption
 	AbstractWhy string
+	Shallow     bool // abstract, but the body is explored for its ghost asserts
 }
 
 // GhostStmt is a ghost statement anchored at a structural point of the function.
@@ -813,6 +814,12 @@ func (ss *SpecSet) loadSpecFile(path, pkg string) error {
 				ls.Decreases = c
 			case "abstract":
 				ls.Abstract = true
+				ls.AbstractWhy = body
+			case "shallow":
+				// like abstract (invariants assumed, no invariant/pre/safety obligations from the body), but the body IS
+				// explored and the ghost `assert`s anchored in it are proved
+				ls.Abstract = true
+				ls.Shallow = true
 				ls.AbstractWhy = body
 			case "modifies":
 				ls.Modifies = append(ls.Modifies, splitTop(body)...)
